@@ -162,6 +162,8 @@ theorem sinv_step {s : Sys} (h : SInv s) (op : Op) : SInv (stepSys s op) := by
       simp only [proj]; split <;> exact nonsnap_inflight (by simp) hidle
     | dropBroker =>
       exact h.idle (by simpa [stepSys, stepActive] using hact) p hpm
+    | manageFailed b =>
+      exact h.idle (by simpa [stepSys, stepActive] using hact) p hpm
 
 theorem sinv_run {s : Sys} (h : SInv s) (ops : List Op) : SInv (run s ops) := by
   induction ops generalizing s with
@@ -192,6 +194,7 @@ theorem proj_committer (s : Sys) (i : Nat) {op : Op} (h : isCommitterOp op = tru
     | true => simp [isCommitterOp] at h
   | acloseAll => simp [proj, isCommitter]
   | dropBroker => simp [proj, isCommitter]
+  | manageFailed b => simp [isCommitterOp] at h
   | manage k => simp [isCommitterOp] at h
   | mark k o m => simp [isCommitterOp] at h
   | reset k o m => simp [isCommitterOp] at h
